@@ -444,8 +444,71 @@ def guardX (l : Label) (s : St) : Prop :=
   | .e5 => s.w = 0
   | _ => True
 
-instance (l : Label) (s : St) : Decidable (guardX l s) := by
-  cases l <;> (simp only [guardX]; exact inferInstance)
+instance (l : Label) (s : St) : Decidable (guardX l s) :=
+  match l with
+  | .call => inferInstanceAs (Decidable (True))
+  | .i0_warm => inferInstanceAs (Decidable (0 ≤ s.flen))
+  | .i0_cold => inferInstanceAs (Decidable (s.flen < 0))
+  | .ini1 => inferInstanceAs (Decidable (True))
+  | .ini2 => inferInstanceAs (Decidable (True))
+  | .ini3 => inferInstanceAs (Decidable (True))
+  | .ini4 => inferInstanceAs (Decidable (True))
+  | .ini5 => inferInstanceAs (Decidable (True))
+  | .ini6 => inferInstanceAs (Decidable (True))
+  | .r1 => inferInstanceAs (Decidable (s.m3 = 0))
+  | .r2 => inferInstanceAs (Decidable (s.r = 0))
+  | .r3 => inferInstanceAs (Decidable (s.m1 = 0))
+  | .r4_first => inferInstanceAs (Decidable (s.readcount = 0))
+  | .r4_more => inferInstanceAs (Decidable (s.readcount ≠ 0))
+  | .r5 => inferInstanceAs (Decidable (s.w = 0))
+  | .r6 => inferInstanceAs (Decidable (True))
+  | .r7 => inferInstanceAs (Decidable (True))
+  | .r8 => inferInstanceAs (Decidable (True))
+  | .c0_ok => inferInstanceAs (Decidable (0 < s.flen))
+  | .c0_grow => inferInstanceAs (Decidable (True))
+  | .rd_end => inferInstanceAs (Decidable (True))
+  | .x1 => inferInstanceAs (Decidable (s.m1 = 0))
+  | .x2_last => inferInstanceAs (Decidable (s.readcount = 1))
+  | .x2_more => inferInstanceAs (Decidable (s.readcount ≠ 1))
+  | .x3 => inferInstanceAs (Decidable (True))
+  | .x4 => inferInstanceAs (Decidable (True))
+  | .u1 => inferInstanceAs (Decidable (s.m1 = 0))
+  | .u2_last => inferInstanceAs (Decidable (s.readcount = 1))
+  | .u2_more => inferInstanceAs (Decidable (s.readcount ≠ 1))
+  | .u3 => inferInstanceAs (Decidable (True))
+  | .u4 => inferInstanceAs (Decidable (True))
+  | .w1 => inferInstanceAs (Decidable (s.m2 = 0))
+  | .w2_first => inferInstanceAs (Decidable (s.writecount = 0))
+  | .w2_more => inferInstanceAs (Decidable (s.writecount ≠ 0))
+  | .w3 => inferInstanceAs (Decidable (s.r = 0))
+  | .w4 => inferInstanceAs (Decidable (True))
+  | .w5 => inferInstanceAs (Decidable (s.w = 0))
+  | .c1_pass len => inferInstanceAs (Decidable (s.flen < len))
+  | .c1_fail => inferInstanceAs (Decidable (0 < s.flen))
+  | .store len => inferInstanceAs (Decidable (len ∈ s.pend))
+  | .build len => inferInstanceAs (Decidable (len ∈ s.wtl))
+  | .y1 => inferInstanceAs (Decidable (True))
+  | .y2 => inferInstanceAs (Decidable (s.m2 = 0))
+  | .y3_last => inferInstanceAs (Decidable (s.writecount = 1))
+  | .y3_more => inferInstanceAs (Decidable (s.writecount ≠ 1))
+  | .y4 => inferInstanceAs (Decidable (True))
+  | .y5 => inferInstanceAs (Decidable (True))
+  | .d1 => inferInstanceAs (Decidable (True))
+  | .d2 => inferInstanceAs (Decidable (s.m2 = 0))
+  | .d3_last => inferInstanceAs (Decidable (s.writecount = 1))
+  | .d3_more => inferInstanceAs (Decidable (s.writecount ≠ 1))
+  | .d4 => inferInstanceAs (Decidable (True))
+  | .d5 => inferInstanceAs (Decidable (True))
+  | .e1 => inferInstanceAs (Decidable (s.m3 = 0))
+  | .e2 => inferInstanceAs (Decidable (s.r = 0))
+  | .e3 => inferInstanceAs (Decidable (s.m1 = 0))
+  | .e4_first => inferInstanceAs (Decidable (s.readcount = 0))
+  | .e4_more => inferInstanceAs (Decidable (s.readcount ≠ 0))
+  | .e5 => inferInstanceAs (Decidable (s.w = 0))
+  | .e6 => inferInstanceAs (Decidable (True))
+  | .e7 => inferInstanceAs (Decidable (True))
+  | .e8 => inferInstanceAs (Decidable (True))
+  | .c2_go => inferInstanceAs (Decidable (True))
 
 /-- effect of the step on the shared variables -/
 def effX (l : Label) (s : St) : St :=
